@@ -56,6 +56,7 @@ type Resp struct {
 	StatusNested []string // StatusCode elements nested below the top-level one (must not matter)
 	Entries      []Assn
 	Sig          string
+	Foreign      []string // look-alike children that are *not* SAML assertions (foreign / empty namespace): must be ignored
 }
 
 type SPCfg struct {
@@ -360,6 +361,33 @@ func (b *builder) responseEl(r Resp) *etree.Element {
 	setTimeAttr(el, "IssueInstant", r.II, b.lexStyle+4)
 	for i, a := range r.Entries {
 		el.AddChild(b.assertionEl(a, i))
+	}
+	for _, f := range r.Foreign {
+		var fe *etree.Element
+		switch f {
+		case "assn-defaultns":
+			fe = etree.NewElement("Assertion")
+			fe.CreateAttr("xmlns", "urn:example:not-saml")
+		case "assn-prefixed":
+			fe = etree.NewElement("x:Assertion")
+			fe.CreateAttr("xmlns:x", "urn:example:not-saml")
+		case "assn-emptyns":
+			fe = etree.NewElement("Assertion")
+			fe.CreateAttr("xmlns", "")
+		case "enc-defaultns":
+			fe = etree.NewElement("EncryptedAssertion")
+			fe.CreateAttr("xmlns", "urn:example:not-saml")
+		case "enc-prefixed":
+			fe = etree.NewElement("x:EncryptedAssertion")
+			fe.CreateAttr("xmlns:x", "urn:oasis:names:tc:SAML:2.0:protocol")
+		case "assn-protocolns":
+			fe = etree.NewElement("samlp:Assertion")
+			fe.CreateAttr("xmlns:samlp", "urn:oasis:names:tc:SAML:2.0:protocol")
+		default:
+			panic("unknown foreign child " + f)
+		}
+		fe.CreateAttr("ID", "id-foreign")
+		el.AddChild(fe)
 	}
 	if r.Sig != "none" {
 		signed, err := b.signCtx(r.Sig, "").SignEnveloped(el)
